@@ -1,5 +1,6 @@
 """G-frag: random programs of the container fragment (lean/NimaVerif/Model/Cst.lean): nested sets,
-`rec` sets and lists over leaf values, depth <= 4, with random whitespace in every gap and line /
+`rec` sets, lists, parenthesised expressions and function applications (curried, with comments between
+function and argument) over leaf values, depth <= 4, with random whitespace in every gap and line /
 single-line block comments between items, at ends of lines and (with probability `p_inner`) between
 the tokens of a binding. Never starts with whitespace. Small by construction (py-tree-sitter 0.26
 crashes beyond ~250 lines)."""
@@ -12,6 +13,7 @@ SEPS = [" ", "  ", "\t", "\n", "\n\n", "\n\n\n", "\n   "]
 LEAVES = ["a", "foo", "true", "false", "null", "0", "1", "42", "3.14", ".5", '"s"', '"a b"', '""', '"é✓"',
           '"x${y}z"', "./p.nix", "../q/r.nix", "<nixpkgs>", "~/h", "x'", "b-c", "_u"]
 NAMES = ["a", "b", "foo", '"q r"', "x'", "c-d", '"é"']
+FUNCS = ["f", "foo", "x'", "b-c", "_u", "import"]
 WS = (" ", "\t", "\n")
 
 
@@ -35,11 +37,52 @@ class FragGen:
             out += ("\n" + self.rng.choice(["", " ", "  ", "\n", "\n  ", "\n\n"])) if line else self.rng.choice(GAPS)
         return out
 
-    def expr(self, depth: int) -> str:
+    def _after(self, s: str, v: str, g: str) -> str:
+        """`g` after the value `v`: a path leaf would swallow a closing token / comment start"""
+        if v.endswith(("nix", "h", ">")) and not g.startswith(WS):
+            return " " + g
+        return g
+
+    def paren(self, depth: int) -> str:
+        s = "(" + self.gap(self.p_cmt)
+        v = self.expr(depth - 1, "paren")
+        if v[0] == "/" or (s.endswith("/") and v[0] == "*"):
+            s += " "
+        s += v
+        return s + self._after(s, v, self.gap(self.p_cmt)) + ")"
+
+    def app(self, depth: int) -> str:
+        """function application; the function is an identifier, a parenthesis or (curried) another
+        application; the argument anything but a bare application"""
         r = self.rng.random()
-        if depth <= 0 or r < 0.3:
+        if depth > 1 and r < 0.3:
+            f = self.app(depth - 1)
+        elif depth > 0 and r < 0.45:
+            f = self.paren(depth - 1)
+        else:
+            f = self.rng.choice(FUNCS)
+        a = self.expr(depth - 1, "arg")
+        g = self.gap(max(self.p_cmt, self.p_inner))
+        if not g.endswith(WS) and not (g == "" and a[0] in "[{(") and not g.endswith("*/"):
+            g += " "
+        if g.endswith("/") and a[0] in "/*":
+            g += " "
+        if g == "" and a[0] not in "[{(":
+            g = " "
+        if a[0] in "./~<" and not g.endswith(WS):
+            g += " "
+        return f + g + a
+
+    def expr(self, depth: int, ctx: str = "top") -> str:
+        r = self.rng.random()
+        if depth <= 0 or r < 0.25:
             return self.rng.choice(LEAVES)
-        if r < 0.65:
+        if r < 0.37:
+            return self.paren(depth)
+        if r < 0.5:
+            # a bare application only where the grammar reads it as one expression
+            return self.app(depth) if ctx in ("top", "value", "paren") else "(" + self.app(depth) + ")"
+        if r < 0.75:
             n = self.rng.choice([0, 0, 1, 1, 2, 3])
             s = "["
             for _ in range(n):
@@ -48,8 +91,8 @@ class FragGen:
                     s += " "
                 if s.endswith("/"):
                     s += " "
-                s += self.expr(depth - 1)
-                if not s.endswith(("]", "}")) or self.rng.random() < 0.7:
+                s += self.expr(depth - 1, "elem")
+                if not s.endswith(("]", "}", ")")) or self.rng.random() < 0.7:
                     s += self.rng.choice(SEPS)
             s += self.gap(self.p_cmt)
             return s + "]"
@@ -58,7 +101,7 @@ class FragGen:
             s += self.gap(self.p_cmt)
             s += self.rng.choice(NAMES)
             s += self.gap(self.p_inner) + "=" + self.gap(self.p_inner)
-            v = self.expr(depth - 1)
+            v = self.expr(depth - 1, "value")
             if v[0] == "/" or (s.endswith("/") and v[0] == "*"):
                 s += " "
             s += v
